@@ -13,6 +13,18 @@ oracle    : norm preserved (Hermitian A, ±dt); accuracy vs scipy.linalg.expm fo
             exactness on invariant subspaces; Arnoldi accuracy for non-Hermitian A; numba vs pure-Python path;
             dense vs matrix-free effective Hamiltonian in `update_site` / `update_bond`; dense builders
             (einsum and numba) vs `project_site` / `project_bond`.
+x19 extension (Model/Heff.lean, kinds heff-*):
+value tie : real `build_dense_heff_site/bond` (einsum and numba kernels), `project_site/bond`, `update_left/right_environment`,
+            `initialize_right_environments` and the closure `_evolve_local_tensor_krylov` hands to `expm_krylov` (both sides of the
+            size switch, explicit thresholds next to n_loc and the module's DENSE_THRESHOLD through `update_site/bond`) vs the model
+            entries, on small dyadic-rational tensors (dims 1..3, non-square bonds, physical dims 2 and 3; binary64 is exact on
+            them, every entry of the real result is read by explicit index); numpy's reshape convention via one-hot kets.
+spec tie  : bond gauges of the library MPOs (hypothesis OpHermG of heff_hermitian_chain) and conjugate symmetry of the real blocks.
+            exact recurrence for complex Hermitian dyadic matrices: alpha_j, beta_j^2 of the real run vs `lanczosC` over Q(i)
+            (kind ratc; the recurrence `lanczos_projection` is about).
+oracle    : dense vs free on the rational tensors; numba vs einsum; dense H_eff Hermitian at every site / bond of ising,
+            heisenberg and bose_hubbard chains with environments built by the real update functions; <left_blocks[k],
+            right_blocks[k-1]> equal for every cut k and equal to an independent transfer-matrix contraction (env_update_assoc).
 """
 from __future__ import annotations
 
@@ -616,6 +628,471 @@ def run_fixed(inp):
     return case
 
 
+
+# =====================================================================================================================
+# x19 extension — index-level tie of Model/Heff.lean: the real `build_dense_heff_site/bond` (einsum and numba),
+# `project_site/bond`, `update_left/right_environment`, `initialize_right_environments` and the size switch of
+# `_evolve_local_tensor_krylov` against the model entries, on small exact-rational tensors (binary64 is exact on them).
+# =====================================================================================================================
+HEFF_SPEC = {"ophem": {"n": 0, "bad": 0, "worst": 0.0, "detail": ""}, "envherm": {"n": 0, "bad": 0, "worst": 0.0, "detail": ""}}
+
+
+def heff_spec_note(which, resid, tol, detail):
+    s = HEFF_SPEC[which]
+    s["n"] += 1
+    s["worst"] = max(s["worst"], float(resid))
+    if not resid <= tol:
+        s["bad"] += 1
+        s["detail"] = detail
+
+
+def rat_tensor(rng, shape, den=4, span=4, zero_p=0.15):
+    """complex tensor with entries (k + i m)/den, |k|,|m| <= span — dyadic, so every contraction below is exact in binary64"""
+    a = np.zeros(shape, dtype=np.complex128)
+    for idx in np.ndindex(*shape):
+        if rng.random() < zero_p:
+            continue
+        a[idx] = complex(rng.randint(-span, span) / den, rng.randint(-span, span) / den)
+    return a
+
+
+def centries(arr):
+    """entries of the array the real code returned, read one by one by explicit index (last index fastest), as exact rationals"""
+    arr = np.asarray(arr)
+    return " ".join(ib.cfrac(arr[idx]) for idx in np.ndindex(*arr.shape))
+
+
+def shape_str(arr):
+    return " ".join(str(int(x)) for x in np.asarray(arr).shape)
+
+
+def numba_builders():
+    try:
+        from mqt.yaqs.core.methods import tdvp_numba as tn
+        return tn
+    except ImportError:
+        return None
+
+
+def capture_effective_operator(call):
+    """run `call()` (an `update_site` / `update_bond` / `_evolve_local_tensor_krylov` invocation) with `expm_krylov` replaced by a
+    recorder: returns (path, y) where path says whether `_build_dense_effective_hamiltonian` was used and y is what the closure
+    handed to `expm_krylov` returns on the flattened start tensor"""
+    rec = {"dense": 0, "y": None}
+    orig_build = tdvp_mod._build_dense_effective_hamiltonian  # noqa: SLF001
+    orig_expm = tdvp_mod.expm_krylov
+
+    def build(projector, proj_args, tensor_shape):
+        rec["dense"] += 1
+        return orig_build(projector, proj_args, tensor_shape)
+
+    def fake_expm(op, vec, dt, *a, **k):
+        rec["y"] = np.array(op(np.array(vec, dtype=np.complex128)))
+        return vec
+
+    tdvp_mod._build_dense_effective_hamiltonian = build  # noqa: SLF001
+    tdvp_mod.expm_krylov = fake_expm
+    try:
+        call()
+    finally:
+        tdvp_mod._build_dense_effective_hamiltonian = orig_build  # noqa: SLF001
+        tdvp_mod.expm_krylov = orig_expm
+    return ("dense" if rec["dense"] else "free"), rec["y"]
+
+
+def site_dims(rng, big=False):
+    o = rng.choice([2, 2, 3])
+    p = o if rng.random() < 0.7 else rng.choice([2, 3])
+    a, b = rng.randint(1, 3), rng.randint(1, 3)
+    if rng.random() < 0.5:
+        aa, bb = a, b
+    else:
+        aa, bb = rng.randint(1, 3), rng.randint(1, 3)
+    return {"o": o, "p": p, "a": a, "aa": aa, "b": b, "bb": bb, "l": rng.randint(1, 3), "r": rng.randint(1, 3)}
+
+
+def site_req(what, d, parts):
+    return f"heffsite {what} {d['o']} {d['p']} {d['a']} {d['aa']} {d['b']} {d['bb']} {d['l']} {d['r']} | " + " | ".join(parts)
+
+
+def run_heff_site(inp):
+    rng = random.Random(inp["sub"])
+    d = inp.get("dims") or site_dims(rng)
+    L = rat_tensor(rng, (d["a"], d["l"], d["aa"]))
+    R = rat_tensor(rng, (d["b"], d["r"], d["bb"]))
+    W = rat_tensor(rng, (d["o"], d["p"], d["l"], d["r"]))
+    X = rat_tensor(rng, (d["p"], d["a"], d["b"]))
+    base = [centries(L), centries(R), centries(W)]
+    tag = f"{d['o']}{d['p']}{d['a']}{d['aa']}{d['b']}{d['bb']}{d['l']}{d['r']}"
+    square = d["a"] == d["aa"] and d["b"] == d["bb"] and d["o"] == d["p"]
+    out = []
+    # 1. einsum builder, whole matrix
+    H = tdvp_mod.build_dense_heff_site(L.copy(), R.copy(), W.copy())
+    Y = tdvp_mod.project_site(L.copy(), R.copy(), W.copy(), X.copy())
+    dev = float(np.max(np.abs(H @ X.reshape(-1) - np.asarray(Y).reshape(-1)))) if H.shape[1] == X.size and H.shape[0] == np.asarray(Y).size else float("inf")
+    orc = {"ok": dev <= 1e-12, "detail": f"max |build_dense_heff_site @ vec(X) - vec(project_site(X))| = {dev:.2e} (dims o p a A b B l r = {tag})"}
+    out.append({"req": site_req("dense", d, base), "impl": shape_str(H) + " " + centries(H), "oracle": orc, "kind": "heff-site-dense",
+                "sig": f"heff-site-dense:{tag}", "nontrivial": bool(np.any(H))})
+    # 2. numba builder, whole matrix
+    tn = numba_builders()
+    if tn is not None:
+        Hn = tn.build_dense_heff_site_numba(np.ascontiguousarray(L), np.ascontiguousarray(R), np.ascontiguousarray(W))
+        devn = float(np.max(np.abs(Hn - H))) if Hn.shape == H.shape else float("inf")
+        out.append({"req": site_req("numba", d, base), "impl": shape_str(Hn) + " " + centries(Hn),
+                    "oracle": {"ok": devn <= 1e-12, "detail": f"max |numba builder - einsum builder| = {devn:.2e} (dims {tag})"},
+                    "kind": "heff-site-numba", "sig": f"heff-site-numba:{tag}", "nontrivial": bool(np.any(Hn))})
+    # 3. matrix-free projector on a random ket
+    out.append({"req": site_req("apply", d, base + [centries(X)]), "impl": shape_str(Y) + " " + centries(Y), "oracle": None,
+                "kind": "heff-site-apply", "sig": f"heff-site-apply:{tag}", "nontrivial": bool(np.any(Y))})
+    # 4. flattening convention: numpy's reshape of a one-hot vector, through the projector and through the dense column
+    ncols = d["p"] * d["a"] * d["b"]
+    col = rng.randrange(ncols)
+    e = np.zeros(ncols, dtype=np.complex128)
+    e[col] = 1.0
+    y1 = np.asarray(tdvp_mod.project_site(L.copy(), R.copy(), W.copy(), e.reshape(d["p"], d["a"], d["b"]))).reshape(-1)
+    out.append({"req": site_req(f"onehot:{col}", d, base), "impl": f"{y1.size} " + centries(y1), "oracle": None,
+                "kind": "heff-site-onehot", "sig": f"heff-site-onehot:{tag}:{col}", "nontrivial": bool(np.any(y1))})
+    hc = H[:, col] if H.ndim == 2 and H.shape[1] > col else np.zeros(0)
+    out.append({"req": site_req(f"onehot:{col}", d, base), "impl": f"{hc.size} " + centries(hc), "oracle": None,
+                "kind": "heff-site-onehot-dense", "sig": f"heff-site-onehotd:{tag}:{col}", "nontrivial": bool(np.any(hc))})
+    # 5. the size switch with an explicit threshold next to n_loc (the operator handed to expm_krylov)
+    thr = ncols + rng.choice([-1, 0, 1])
+    path, y = capture_effective_operator(
+        lambda: tdvp_mod._evolve_local_tensor_krylov(tdvp_mod.project_site, X.copy(), 0.1, (L.copy(), R.copy(), W.copy()), dense_threshold=thr))  # noqa: SLF001
+    out.append({"req": site_req(f"switch:{thr}", d, base + [centries(X)]), "impl": path + " " + centries(y), "oracle": None,
+                "kind": "heff-site-switch", "sig": f"heff-site-switch:{tag}:{thr - ncols}", "nontrivial": True})
+    if square and ncols <= tdvp_mod.DENSE_THRESHOLD + 64:
+        # the public entry point with the module's own threshold
+        path2, y2 = capture_effective_operator(lambda: tdvp_mod.update_site(L.copy(), R.copy(), W.copy(), X.copy(), 0.1))
+        out.append({"req": site_req(f"switch:{int(tdvp_mod.DENSE_THRESHOLD)}", d, base + [centries(X)]), "impl": path2 + " " + centries(y2), "oracle": None,
+                    "kind": "heff-site-switchdef", "sig": f"heff-site-switchdef:{tag}", "nontrivial": True})
+    return out
+
+
+def bond_dims(rng):
+    u, v = rng.randint(1, 3), rng.randint(1, 3)
+    if rng.random() < 0.5:
+        pp, w = u, v
+    else:
+        pp, w = rng.randint(1, 3), rng.randint(1, 3)
+    return {"u": u, "v": v, "m": rng.randint(1, 3), "pp": pp, "w": w}
+
+
+def bond_req(what, d, parts):
+    return f"heffbond {what} {d['u']} {d['v']} {d['m']} {d['pp']} {d['w']} | " + " | ".join(parts)
+
+
+def run_heff_bond(inp):
+    rng = random.Random(inp["sub"])
+    d = inp.get("dims") or bond_dims(rng)
+    L = rat_tensor(rng, (d["u"], d["m"], d["pp"]))
+    R = rat_tensor(rng, (d["v"], d["m"], d["w"]))
+    C = rat_tensor(rng, (d["u"], d["v"]))
+    base = [centries(L), centries(R)]
+    tag = f"{d['u']}{d['v']}{d['m']}{d['pp']}{d['w']}"
+    square = d["u"] == d["pp"] and d["v"] == d["w"]
+    out = []
+    H = tdvp_mod.build_dense_heff_bond(L.copy(), R.copy())
+    Y = tdvp_mod.project_bond(L.copy(), R.copy(), C.copy())
+    dev = float(np.max(np.abs(H @ C.reshape(-1) - np.asarray(Y).reshape(-1)))) if H.shape[1] == C.size and H.shape[0] == np.asarray(Y).size else float("inf")
+    orc = {"ok": dev <= 1e-12, "detail": f"max |build_dense_heff_bond @ vec(C) - vec(project_bond(C))| = {dev:.2e} (dims u v m p w = {tag})"}
+    out.append({"req": bond_req("dense", d, base), "impl": shape_str(H) + " " + centries(H), "oracle": orc, "kind": "heff-bond-dense",
+                "sig": f"heff-bond-dense:{tag}", "nontrivial": bool(np.any(H))})
+    tn = numba_builders()
+    if tn is not None:
+        Hn = tn.build_dense_heff_bond_numba(np.ascontiguousarray(L), np.ascontiguousarray(R))
+        devn = float(np.max(np.abs(Hn - H))) if Hn.shape == H.shape else float("inf")
+        out.append({"req": bond_req("numba", d, base), "impl": shape_str(Hn) + " " + centries(Hn),
+                    "oracle": {"ok": devn <= 1e-12, "detail": f"max |numba bond builder - einsum builder| = {devn:.2e} (dims {tag})"},
+                    "kind": "heff-bond-numba", "sig": f"heff-bond-numba:{tag}", "nontrivial": bool(np.any(Hn))})
+    out.append({"req": bond_req("apply", d, base + [centries(C)]), "impl": shape_str(Y) + " " + centries(Y), "oracle": None,
+                "kind": "heff-bond-apply", "sig": f"heff-bond-apply:{tag}", "nontrivial": bool(np.any(Y))})
+    ncols = d["u"] * d["v"]
+    col = rng.randrange(ncols)
+    e = np.zeros(ncols, dtype=np.complex128)
+    e[col] = 1.0
+    y1 = np.asarray(tdvp_mod.project_bond(L.copy(), R.copy(), e.reshape(d["u"], d["v"]))).reshape(-1)
+    out.append({"req": bond_req(f"onehot:{col}", d, base), "impl": f"{y1.size} " + centries(y1), "oracle": None,
+                "kind": "heff-bond-onehot", "sig": f"heff-bond-onehot:{tag}:{col}", "nontrivial": bool(np.any(y1))})
+    hc = H[:, col] if H.ndim == 2 and H.shape[1] > col else np.zeros(0)
+    out.append({"req": bond_req(f"onehot:{col}", d, base), "impl": f"{hc.size} " + centries(hc), "oracle": None,
+                "kind": "heff-bond-onehot-dense", "sig": f"heff-bond-onehotd:{tag}:{col}", "nontrivial": bool(np.any(hc))})
+    thr = ncols + rng.choice([-1, 0, 1])
+    path, y = capture_effective_operator(
+        lambda: tdvp_mod._evolve_local_tensor_krylov(tdvp_mod.project_bond, C.copy(), 0.1, (L.copy(), R.copy()), dense_threshold=thr))  # noqa: SLF001
+    out.append({"req": bond_req(f"switch:{thr}", d, base + [centries(C)]), "impl": path + " " + centries(y), "oracle": None,
+                "kind": "heff-bond-switch", "sig": f"heff-bond-switch:{tag}:{thr - ncols}", "nontrivial": True})
+    if square:
+        path2, y2 = capture_effective_operator(lambda: tdvp_mod.update_bond(L.copy(), R.copy(), C.copy(), 0.1))
+        out.append({"req": bond_req(f"switch:{int(tdvp_mod.DENSE_THRESHOLD)}", d, base + [centries(C)]), "impl": path2 + " " + centries(y2), "oracle": None,
+                    "kind": "heff-bond-switchdef", "sig": f"heff-bond-switchdef:{tag}", "nontrivial": True})
+    return out
+
+
+def shapes_with_product(n, firsts):
+    """(p, a, b) with p in `firsts`, a, b >= 2 (when possible) and p*a*b == n"""
+    out = []
+    for p in firsts:
+        if n % p:
+            continue
+        m = n // p
+        for a in range(2, m):
+            if m % a == 0 and m // a >= 2:
+                out.append((p, a, m // a))
+        if not out:
+            out.append((p, 1, m))
+    return out
+
+
+def run_heff_threshold(inp):
+    """local problems whose size is DENSE_THRESHOLD + {-2..2} (and a few further away) through the public `update_site` / `update_bond`:
+    which side of the switch the real code takes, and the operator it hands to expm_krylov, vs the model's `applyEffSite/Bond` at the
+    module's own constant (so `<=` vs `<` is decided exactly at n_loc == DENSE_THRESHOLD)"""
+    rng = random.Random(inp["sub"])
+    thr = int(tdvp_mod.DENSE_THRESHOLD)
+    delta = inp.get("delta", 0)
+    target = max(2, thr + delta)
+    if inp["which"] == "site":
+        cands = shapes_with_product(target, [2, 3, 4]) or [(1, 1, target)]
+        p, a, b = rng.choice(cands)
+        d = {"o": p, "p": p, "a": a, "aa": a, "b": b, "bb": b, "l": rng.randint(1, 2), "r": rng.randint(1, 2)}
+        L = rat_tensor(rng, (a, d["l"], a), den=2, span=2, zero_p=0.5)
+        R = rat_tensor(rng, (b, d["r"], b), den=2, span=2, zero_p=0.5)
+        W = rat_tensor(rng, (p, p, d["l"], d["r"]), den=2, span=2, zero_p=0.2)
+        X = rat_tensor(rng, (p, a, b), den=2, span=2, zero_p=0.3)
+        path, y = capture_effective_operator(lambda: tdvp_mod.update_site(L.copy(), R.copy(), W.copy(), X.copy(), -0.05))
+        req = site_req(f"switch:{thr}", d, [centries(L), centries(R), centries(W), centries(X)])
+        n_loc = p * a * b
+    else:
+        cands = [(u, target // u) for u in range(2, target) if target % u == 0] or [(1, target)]
+        u, v = rng.choice(cands)
+        d = {"u": u, "v": v, "m": rng.randint(1, 2), "pp": u, "w": v}
+        L = rat_tensor(rng, (u, d["m"], u), den=2, span=2, zero_p=0.5)
+        R = rat_tensor(rng, (v, d["m"], v), den=2, span=2, zero_p=0.5)
+        X = rat_tensor(rng, (u, v), den=2, span=2, zero_p=0.3)
+        path, y = capture_effective_operator(lambda: tdvp_mod.update_bond(L.copy(), R.copy(), X.copy(), -0.05))
+        req = bond_req(f"switch:{thr}", d, [centries(L), centries(R), centries(X)])
+        n_loc = u * v
+    return {"req": req, "impl": path + " " + centries(y), "oracle": None, "kind": f"heff-threshold-{inp['which']}",
+            "sig": f"heff-threshold:{inp['which']}:{n_loc - thr}:{path}", "nontrivial": True}
+
+
+def run_heff_env(inp):
+    """one step of update_left_environment / update_right_environment with independent ket and bra"""
+    rng = random.Random(inp["sub"])
+    d = site_dims(rng)
+    ket = rat_tensor(rng, (d["p"], d["a"], d["b"]))
+    bra = rat_tensor(rng, (d["o"], d["aa"], d["bb"]))
+    W = rat_tensor(rng, (d["o"], d["p"], d["l"], d["r"]))
+    dims = f"{d['o']} {d['p']} {d['a']} {d['aa']} {d['b']} {d['bb']} {d['l']} {d['r']}"
+    tag = dims.replace(" ", "")
+    if inp["side"] == "left":
+        E = rat_tensor(rng, (d["a"], d["l"], d["aa"]))
+        out = tdvp_mod.update_left_environment(ket.copy(), bra.copy(), W.copy(), E.copy())
+        req = f"envleft {dims} | {centries(E)} | {centries(W)} | {centries(ket)} | {centries(bra)}"
+    else:
+        E = rat_tensor(rng, (d["b"], d["r"], d["bb"]))
+        out = tdvp_mod.update_right_environment(ket.copy(), bra.copy(), W.copy(), E.copy())
+        req = f"envright {dims} | {centries(E)} | {centries(W)} | {centries(ket)} | {centries(bra)}"
+    return {"req": req, "impl": shape_str(out) + " " + centries(out), "oracle": None, "kind": f"heff-env-{inp['side']}",
+            "sig": f"heff-env:{inp['side']}:{tag}", "nontrivial": bool(np.any(out))}
+
+
+def run_heff_chain(inp):
+    """`initialize_right_environments` of a whole small chain (loop indices, identity boundary) vs the model's `rightEnvChain`"""
+    rng = random.Random(inp["sub"])
+    n = rng.randint(2, 4)
+    phys = [rng.choice([2, 2, 3]) for _ in range(n)]
+    chi = [rng.choice([1, 1, 2])] + [rng.randint(1, 3) for _ in range(n - 1)] + [rng.choice([1, 1, 2])]
+    mb = [rng.choice([1, 1, 2])] + [rng.randint(1, 3) for _ in range(n - 1)] + [rng.choice([1, 1, 2])]
+    kets = [rat_tensor(rng, (phys[i], chi[i], chi[i + 1]), den=2, span=2) for i in range(n)]
+    ws = [rat_tensor(rng, (phys[i], phys[i], mb[i], mb[i + 1]), den=2, span=2) for i in range(n)]
+    psi = MPS(n, tensors=[k.copy() for k in kets], physical_dimensions=list(phys))
+    op = MPO()
+    op.custom([w.copy() for w in ws], transpose=False)
+    blocks = tdvp_mod.initialize_right_environments(psi, op)
+    parts = []
+    for i in range(n):
+        parts += [f"{phys[i]} {phys[i]} {chi[i]} {chi[i + 1]} {mb[i]} {mb[i + 1]}", centries(kets[i]), centries(ws[i])]
+    req = f"rightchain {n} | " + " | ".join(parts)
+    impl = " | ".join(centries(b) for b in blocks)
+    orc = cut_independence_oracle(kets, ws, blocks, f"chain phys {phys} bonds {chi} MPO bonds {mb}")
+    return {"req": req, "impl": impl, "oracle": orc, "kind": "heff-right-chain", "sig": f"heff-chain:{n}:{phys}:{chi}:{mb}",
+            "nontrivial": n >= 2 and bool(np.any(blocks[0]))}
+
+
+def cut_independence_oracle(kets, ws, rights, what, rtol=1e-9):
+    """conclusion of `env_update_assoc` on the real code: with left blocks built by the real `update_left_environment` and right blocks
+    by the real `initialize_right_environments`, the number <left_blocks[k], right_blocks[k-1]> is the same for every cut k and equals an
+    independent transfer-matrix contraction of <psi| MPO |psi> (own einsum, identity boundaries)"""
+    n = len(kets)
+    chi0, m0 = kets[0].shape[1], ws[0].shape[2]
+    left = np.zeros((chi0, m0, chi0), dtype=complex)
+    for i in range(chi0):
+        left[i, :, i] = 1
+    lefts = [left]
+    for i in range(n - 1):
+        lefts.append(tdvp_mod.update_left_environment(kets[i], kets[i], ws[i], lefts[i]))
+    vals = [complex(np.sum(lefts[k] * rights[k - 1])) for k in range(1, n)]
+    # cut 0: the boundary block against the chain contracted completely from the right
+    vals.append(complex(np.sum(lefts[0] * tdvp_mod.update_right_environment(kets[0], kets[0], ws[0], rights[0]))))
+    e = left.copy()
+    for i in range(n):   # E'[b,r,B] = sum ket[p,a,b] W[o,p,l,r] conj(ket[o,A,B]) E[a,l,A]
+        e = np.einsum("pab,oplr,oAB,alA->brB", kets[i], ws[i], kets[i].conj(), e)
+    chin, mn = kets[-1].shape[2], ws[-1].shape[3]
+    ref = complex(sum(e[i, a, i] for i in range(chin) for a in range(mn)))
+    scale = max(1.0, abs(ref))
+    dev = max(abs(v - ref) for v in vals) / scale
+    return {"ok": dev <= rtol, "detail": f"{what}: <L_k, R_k> over the {len(vals)} cuts deviates from the independent contraction {ref:.6g} by {dev:.2e} (relative)"}
+
+
+def find_gauges(ws):
+    """bond gauges of a Hermitian MPO: matrices G_k (and inverses Gi_k) on every bond with
+    W_k[o,p,l,r]* = sum_{l',r'} G_k[l,l'] W_k[p,o,l',r'] Gi_{k+1}[r',r]  (hypothesis OpHermG of heff_hermitian_chain),
+    G_0 = 1; solved bond by bond by least squares.  Returns (Gs, Gis, worst residual)"""
+    n = len(ws)
+    gs, gis = [np.eye(ws[0].shape[2], dtype=complex)], [np.eye(ws[0].shape[2], dtype=complex)]
+    worst = 0.0
+    for k in range(n):
+        w = ws[k]
+        do, dp, dl, dr = w.shape
+        t = np.einsum("lm,pomr->oplr", gs[k], w).reshape(do * dp * dl, dr)      # T[(o,p,l), r'] = sum_l' G[l,l'] W[p,o,l',r']
+        target = w.conj().reshape(do * dp * dl, dr)                               # W[o,p,l,r]*
+        gi_next, *_ = np.linalg.lstsq(t, target, rcond=None)
+        resid = float(np.max(np.abs(t @ gi_next - target))) / max(1.0, float(np.max(np.abs(w))))
+        worst = max(worst, resid)
+        if abs(np.linalg.det(gi_next)) < 1e-12:
+            return None, None, float("inf")
+        gis.append(gi_next)
+        gs.append(np.linalg.inv(gi_next))
+    return gs, gis, worst
+
+
+def run_heff_herm(inp):
+    """hypotheses and conclusion of `heff_hermitian_chain` / `heff_bond_hermitian_chain` on the real code: Hermitian MPOs of the
+    library, a random complex MPS, environments built by the real update functions with the state's own tensors ->
+    bond gauges exist, blocks conjugate-symmetric up to them, dense effective Hamiltonians Hermitian at every site and bond"""
+    rng = random.Random(inp["sub"])
+    nprng = np.random.default_rng(inp["sub"])
+    n = rng.randint(2, 5)
+    model = rng.choice(["ising", "heisenberg", "bose"])
+    if model == "ising":
+        ham, dloc = MPO.ising(n, rng.uniform(0.5, 1.5), rng.uniform(0.3, 1.2)), 2
+    elif model == "heisenberg":
+        ham, dloc = MPO.heisenberg(n, rng.uniform(0.4, 1.2), rng.uniform(0.4, 1.2), rng.uniform(0.4, 1.2), rng.uniform(0.1, 0.8)), 2
+    else:
+        dloc = rng.choice([2, 3])
+        ham = MPO.bose_hubbard(n, dloc, rng.uniform(0.5, 1.5), rng.uniform(0.3, 1.2), rng.uniform(0.2, 1.0))
+    chi = [1] + [rng.randint(1, 4) for _ in range(n - 1)] + [1]
+    tensors = [nprng.normal(size=(dloc, chi[i], chi[i + 1])) + 1j * nprng.normal(size=(dloc, chi[i], chi[i + 1])) for i in range(n)]
+    psi = MPS(n, tensors=tensors, physical_dimensions=[dloc] * n)
+    ws = [np.asarray(t) for t in ham.tensors]
+    gs, gis, gres = find_gauges(ws)
+    bdy = float("inf") if gs is None else max(float(np.max(np.abs(gis[0].sum(axis=0) - 1))), float(np.max(np.abs(gs[n].sum(axis=1) - 1))))
+    heff_spec_note("ophem", max(gres, bdy), 1e-8,
+                   f"MPO.{model} (length {n}): no bond gauges with W* = G W^T G^-1 (residual {gres:.2e}, boundary {bdy:.2e})")
+    probs = []
+    rights = tdvp_mod.initialize_right_environments(psi, ham)
+    left = np.zeros((chi[0], ws[0].shape[2], chi[0]), dtype=complex)
+    for i in range(chi[0]):
+        left[i, :, i] = 1
+    lefts = [left]
+    for i in range(n - 1):
+        lefts.append(tdvp_mod.update_left_environment(psi.tensors[i], psi.tensors[i], ws[i], lefts[i]))
+    worst_env, worst_h = 0.0, 0.0
+    for i in range(n):
+        if gs is not None and max(gres, bdy) <= 1e-8:
+            el, er = lefts[i], rights[i]
+            # LeftHermG on bond i:  E[A,l,a]* = sum_l' E[a,l',A] Gi_i[l',l];  RightHermG on bond i+1:  E[B,r,b]* = sum_r' G_{i+1}[r,r'] E[b,r',B]
+            dl_ = float(np.max(np.abs(el.conj().transpose(2, 1, 0) - np.einsum("amA,ml->alA", el, gis[i])))) / max(1.0, float(np.max(np.abs(el))))
+            dr_ = float(np.max(np.abs(er.conj().transpose(2, 1, 0) - np.einsum("rm,bmB->brB", gs[i + 1], er)))) / max(1.0, float(np.max(np.abs(er))))
+            worst_env = max(worst_env, dl_, dr_)
+            heff_spec_note("envherm", max(dl_, dr_), 1e-8, f"blocks of site {i} of MPO.{model} (length {n}): left {dl_:.2e} right {dr_:.2e}")
+        h = tdvp_mod.build_dense_heff_site(lefts[i], rights[i], ws[i])
+        dev = float(np.max(np.abs(h - h.conj().T))) / max(1.0, float(np.max(np.abs(h))))
+        worst_h = max(worst_h, dev)
+        if dev > 1e-10:
+            probs.append(f"dense single-site effective Hamiltonian at site {i} of MPO.{model} (length {n}, bonds {chi}) is not Hermitian: {dev:.2e}")
+        if i < n - 1:
+            hb = tdvp_mod.build_dense_heff_bond(lefts[i + 1], rights[i])
+            dev = float(np.max(np.abs(hb - hb.conj().T))) / max(1.0, float(np.max(np.abs(hb))))
+            worst_h = max(worst_h, dev)
+            if dev > 1e-10:
+                probs.append(f"dense bond effective Hamiltonian at bond {i} of MPO.{model} (length {n}, bonds {chi}) is not Hermitian: {dev:.2e}")
+    cut = cut_independence_oracle([np.asarray(t) for t in psi.tensors], ws, rights, f"MPO.{model} length {n} bonds {chi}")
+    if not cut["ok"]:
+        probs.append(cut["detail"])
+    trivial_gauge = gs is not None and all(float(np.max(np.abs(g - np.eye(len(g))))) < 1e-9 for g in gs)
+    return {"req": None, "impl": None, "kind": "heff-herm", "sig": f"heff-herm:{model}:{n}:{'id' if trivial_gauge else 'gauge'}",
+            "oracle": {"ok": not probs, "detail": "; ".join(probs[:3]) or f"MPO.{model} length {n} ({'identity' if trivial_gauge else 'non-trivial'} gauge, residual "
+                                                                           f"{gres:.1e}): blocks conj-symmetric to {worst_env:.1e}, dense H_eff Hermitian to {worst_h:.1e}"},
+            "meta": {"worst_env": worst_env, "worst_h": worst_h, "gauge_residual": gres, "trivial_gauge": trivial_gauge}}
+
+
+def run_ratc(inp):
+    """exact recurrence for a complex Hermitian operator: alpha_j and beta_j^2 of the real run vs lanczosC over Q(i)
+    (small dyadic Hermitian matrices, complex start vectors) — the recurrence `lanczos_projection` is about"""
+    rng = random.Random(inp["sub"])
+    n = rng.choice([3, 4, 5, 6])
+    a = np.zeros((n, n), dtype=complex)
+    for i in range(n):
+        a[i, i] = rng.randint(-8, 8) / 4
+        for j in range(i + 1, n):
+            a[i, j] = complex(rng.randint(-8, 8) / 4, rng.randint(-8, 8) / 4)
+            a[j, i] = a[i, j].conjugate()
+    v = np.array([complex(rng.randint(-4, 4), rng.randint(-4, 4)) for _ in range(n)])
+    if not np.any(v):
+        v[0] = 1.0
+    m_max = rng.randint(2, n - 1) if n > 3 else 2
+    case, out, rec = lanczos_case(lambda x: a @ x, v.copy(), rng.choice([0.1, -0.3]), m_max, 1e-14, "lanczos-ratc")
+    k = rec["matvec"]
+    it = rec["last"]
+    if isinstance(out, str) or it is None or it["k"] != k:
+        return case
+    alphas, betas = it["alpha"], it["beta"]
+    req = f"lanczosc {n} {k} | {' '.join(ib.cfrac(x) for row in a for x in row)} | {' '.join(ib.cfrac(x) for x in v)}"
+    impl = " ".join(ib.fmt(x) for x in alphas) + " | " + " ".join(ib.fmt(b * b) for b in betas)
+    scale = float(np.max(np.abs(a))) or 1.0
+    edge = bool(len(betas) and min(betas) < 1e-2 * scale) or bool(np.max(np.abs(alphas)) > 0 and np.min(np.abs(alphas)) < 1e-6 * scale)
+    return [case, {"req": req, "impl": impl, "oracle": None, "edge": edge, "kind": "lanczos-ratc-values", "sig": f"ratc:{n}:{k}",
+                   "nontrivial": k >= 2}]
+
+
+def heff_spec():
+    return [{"name": "hypothesis OpHermG of heff_hermitian(_chain): invertible bond gauges G_k with W_k[o,p,l,r]* = sum G_k[l,l'] W_k[p,o,l',r'] "
+                     "G_{k+1}^-1[r',r], G_0 = G_n = [[1]], exist for the library MPOs used (ising, heisenberg: SVD-compressed, general G; "
+                     "bose_hubbard: G swaps the adag / a channels)",
+             "ok": HEFF_SPEC["ophem"]["bad"] == 0, "n": HEFF_SPEC["ophem"]["n"], "worst_residual": HEFF_SPEC["ophem"]["worst"],
+             "detail": HEFF_SPEC["ophem"]["detail"]},
+            {"name": "conclusion of env_update_hermitian on the real blocks: L[A,l,a]* = sum L[a,l',A] G^-1[l',l] and R[B,r,b]* = sum G[r,r'] R[b,r',B] "
+                     "for every left / right block built by the real update functions from the state's own tensors", "ok": HEFF_SPEC["envherm"]["bad"] == 0, "n": HEFF_SPEC["envherm"]["n"],
+             "worst_residual": HEFF_SPEC["envherm"]["worst"], "detail": HEFF_SPEC["envherm"]["detail"]}]
+
+
+def gen_heff(rng, tier):
+    n = {"quick": 1.0, "thorough": 6.0, "search": 1.5}.get(tier, 1.0)
+    for _ in range(int(14 * n)):
+        yield {"kind": "heff-site", "sub": rng.randrange(1 << 30)}
+    for _ in range(int(10 * n)):
+        yield {"kind": "heff-bond", "sub": rng.randrange(1 << 30)}
+    for side in ("left", "right"):
+        for _ in range(int(10 * n)):
+            yield {"kind": "heff-env", "side": side, "sub": rng.randrange(1 << 30)}
+    for _ in range(int(10 * n)):
+        yield {"kind": "heff-chain", "sub": rng.randrange(1 << 30)}
+    for which in ("site", "bond"):
+        for delta in (0, 1, -1, 2, -2, 16)[: max(3, int(4 * n))]:
+            yield {"kind": "heff-threshold", "which": which, "delta": delta, "sub": rng.randrange(1 << 30)}
+    for _ in range(int(12 * n)):
+        yield {"kind": "heff-herm", "sub": rng.randrange(1 << 30)}
+    for _ in range(int(30 * n)):
+        yield {"kind": "ratc", "sub": rng.randrange(1 << 30)}
+
+
+HEFF_KINDS = {"heff-site": run_heff_site, "heff-bond": run_heff_bond, "heff-env": run_heff_env, "heff-chain": run_heff_chain,
+              "heff-threshold": run_heff_threshold, "heff-herm": run_heff_herm, "ratc": run_ratc}
+
+
 def gen(rng, tier):
     n = {"quick": 1.0, "thorough": 10.0, "search": 1.5}.get(tier, 1.0)
     for where in ("below", "at", "above"):
@@ -635,6 +1112,7 @@ def gen(rng, tier):
         yield {"kind": "kernel", "sub": rng.randrange(1 << 30)}
     for _ in range(int(9 * n)):
         yield {"kind": "big", "where": rng.choice(["below", "at", "above"]), "sub": rng.randrange(1 << 30)}
+    yield from gen_heff(rng, tier)   # x19 extension (drawn after everything else: the earlier stream is unchanged)
 
 
 def run(inp):
@@ -667,6 +1145,8 @@ def run_kind(inp):
         return run_local(inp)
     if k == "fixed":
         return run_fixed(inp)
+    if k in HEFF_KINDS:
+        return HEFF_KINDS[k](inp)
     raise ValueError(k)
 
 
@@ -676,7 +1156,7 @@ def spec():
              "worst_residual": SPEC["eigh"]["worst"], "detail": SPEC["eigh"]["detail"]},
             {"name": "Lanczos basis of the real run (V^H V = 1, V^H A V = T on the columns used, away from breakdowns; to 1e-3: orthogonality degrades as Ritz values converge) — hypothesis hV of "
                      "krylov_isometry / lanczos_tridiagonal in floating point", "ok": SPEC["basis"]["bad"] == 0, "n": SPEC["basis"]["n"],
-             "worst_residual": SPEC["basis"]["worst"], "detail": SPEC["basis"]["detail"]}]
+             "worst_residual": SPEC["basis"]["worst"], "detail": SPEC["basis"]["detail"]}] + heff_spec()
 
 
 if __name__ == "__main__":
@@ -686,11 +1166,15 @@ if __name__ == "__main__":
                  "subspace / eigenvector / zero starts, m_max 1..40, tol 1e-12..1e-3, both signs of dt; non-Hermitian "
                  "(H - i/2 sum L^dag L, general, normal) for Arnoldi; local problems of real MPS/MPO pairs with 32..320 entries "
                  "straddling DENSE_THRESHOLD; distinct = distinct (kind, exit, m_max, path) signatures; non-trivial = "
-                 "breakdown / converged / exhausted with m_max > 1",
+                 "breakdown / converged / exhausted with m_max > 1; heff-* kinds: random dyadic-rational tensors with dims 1..3 "
+                 "(independent in/out bond dims in half of the cases, physical dims 2 and 3, o != p in 30%), chains of 2..4 sites, "
+                 "local sizes DENSE_THRESHOLD-2..+2, distinct = distinct dimension tuples per request kind",
             trusted_base=["scipy.linalg.expm / numpy eigh as reference in the oracles",
                           "cited, not formalised: Hochbruck-Lubich error bound of the Krylov approximation (SIAM J. Numer. Anal. 34, 1997)",
                           "modelled, not verified: scipy.linalg.eigh_tridiagonal, scipy.linalg.expm of the small problem (spec-tied each run)"],
             assumptions=["beta_j handed to the model are the entries of the function's own `beta` array (binary64, exact rationals); "
                          "phi_j is recomputed from the eigen-solver's output with the code's formula",
-                         "k is the number of operator applications; the exit kind is derived from (fresh call, k, m_max)"],
+                         "k is the number of operator applications; the exit kind is derived from (fresh call, k, m_max)",
+                         "heff-* kinds: tensors are sent to the model entry by entry in row-major order of their numpy shape; the answer of the real "
+                         "code is read entry by entry from the array it returned (shape included)"],
             spec=spec)
